@@ -19,6 +19,7 @@ import (
 	"path/filepath"
 	"sort"
 	"strings"
+	"sync"
 	"testing"
 	"time"
 
@@ -211,9 +212,30 @@ type fakeConn struct {
 	authed     bool
 }
 
+// Send may be called from goroutines of the code under test (the notifier's retry goroutine makes its first attempt at
+// once and in parallel): the envelope is only queued here; the simulator's own goroutine moves the queue into the
+// network (pump), so that all simulator state is touched by one goroutine only.
 func (c *fakeConn) Send(_ grpc.Protocol, envelope interface{}, _ bool) error {
-	c.sim.capture(c.owner, c.to, envelope.(*v2.Envelope))
+	c.sim.inMu.Lock()
+	c.sim.inbox = append(c.sim.inbox, pendingSend{c.owner, c.to, envelope.(*v2.Envelope)})
+	c.sim.inMu.Unlock()
 	return nil
+}
+
+type pendingSend struct {
+	from, to string
+	env      *v2.Envelope
+}
+
+// pump moves what the nodes have sent since the last call into the simulated network (and through the envelope monitor).
+func (s *sim) pump() {
+	s.inMu.Lock()
+	in := s.inbox
+	s.inbox = nil
+	s.inMu.Unlock()
+	for _, m := range in {
+		s.capture(m.from, m.to, m.env)
+	}
 }
 func (c *fakeConn) Peer() transport.Peer  { return c.peer }
 func (c *fakeConn) IsConnected() bool     { return c.connected }
@@ -292,6 +314,8 @@ type inflight struct {
 }
 
 type sim struct {
+	inMu  sync.Mutex
+	inbox []pendingSend
 	t     *testing.T
 	dir   string
 	u     *universe
@@ -676,6 +700,7 @@ func (s *sim) setNames(n *node) []string {
 }
 
 func (s *sim) converged() bool {
+	s.pump()
 	union := map[hash.SHA256Hash]bool{}
 	sets := map[string]map[hash.SHA256Hash]bool{}
 	for _, name := range s.order {
@@ -703,12 +728,15 @@ func (s *sim) converged() bool {
 }
 
 func (s *sim) add(n *node, c *ctx) error {
-	return n.state.Add(context.Background(), c.tx, c.payload)
+	err := n.state.Add(context.Background(), c.tx, c.payload)
+	s.pump()
+	return err
 }
 
 // ------------------------------------------------------------------------------- simulator steps
 
 func (s *sim) find(kind, from, to string, num int) int {
+	s.pump()
 	for i, m := range s.net {
 		if m.kind == kind && m.from == from && m.to == to && (num == 0 || m.num == num) {
 			return i
@@ -744,6 +772,7 @@ func (s *sim) deliver(i int, keep bool) {
 		}()
 		return v2.VerifHandleSync(n.proto, conn, m.env)
 	}()
+	s.pump()
 	s.res.Delivered++
 	ev["err"] = err != nil
 	if err != nil {
@@ -765,6 +794,7 @@ func (s *sim) tick(n, p string) {
 		s.res.Trace = append(s.res.Trace, map[string]any{"ev": "tick", "n": n, "p": p})
 	}
 	v2.VerifGossipTick(node.proto, c.peer)
+	s.pump()
 }
 
 func (s *sim) expire(n string, kind string) int {
@@ -796,6 +826,7 @@ func (s *sim) expireMatching(n string, kind string, want *v2.VerifConversation) 
 	k := v2.VerifExpire(node.proto, func(c v2.VerifConversation) bool {
 		return kind == "" || c.ID == pick
 	})
+	s.pump()
 	if len(s.u.txs) <= 40 && k > 0 {
 		s.res.Trace = append(s.res.Trace, map[string]any{"ev": "expire", "n": n, "kind": kind, "count": k})
 	}
@@ -864,6 +895,7 @@ func (s *sim) drain() bool {
 	}
 	last := digest()
 	idle := 0
+	s.pump()
 	for len(s.net) > 0 {
 		s.deliver(0, false)
 		idle++
@@ -895,6 +927,7 @@ func (s *sim) fairSuffix(maxRounds int) bool {
 		if s.parties != nil {
 			for _, n := range s.order {
 				_ = v2.VerifRetryPrivate(s.nodes[n].proto)
+				s.pump()
 			}
 			if len(s.net) > 0 {
 				continue
@@ -915,6 +948,7 @@ func (s *sim) fairSuffix(maxRounds int) bool {
 func (s *sim) replay(sc script) {
 	for i, st := range sc.Steps {
 		s.step = i
+		s.pump()
 		switch st.str("a") {
 		case "GossipTick":
 			s.tick(st.str("n"), st.str("p"))
@@ -987,6 +1021,7 @@ func (s *sim) random(sc script, future map[string][]*ctx, invalid []*ctx) {
 	loss, dup, exp, inj, cre := sc.Loss, sc.Dup, sc.Expire, sc.Inject, sc.Create
 	for i := 0; i < sc.Budget; i++ {
 		s.step = i
+		s.pump()
 		r := rnd.Intn(100)
 		switch {
 		case len(s.net) > 0 && r < 60:
